@@ -437,3 +437,191 @@ pub fn work(tier: u8, seed: u64, idx: usize) -> Rec {
     judge(&p, &mut rec, tier);
     rec
 }
+
+// ---------------------------------------------------------------------------------------------
+// Await loops whose check is a read-modify-write (test-and-set lock, fetch_add(0) as "load the latest value")
+// ---------------------------------------------------------------------------------------------
+// The litmus oracle treats an await as one blocking read; a loop whose check also WRITES the location has no such
+// reading, so these shapes are judged by what the program itself guarantees: the condition is established by another
+// thread in every execution (the loop must end, the model must not hit the branch limit), an Acquire check that read
+// the Release store sees the data written before it, both "free at the first attempt" and "had to spin" are explored,
+// and a loop nobody ever releases is reported.
+
+#[derive(Clone, Copy, Debug, PartialEq)]
+enum RmwCheck {
+    Swap,
+    FetchAdd0,
+    FetchOr1,
+    CasLoop,
+}
+const RMW_CHECKS: [RmwCheck; 4] = [RmwCheck::Swap, RmwCheck::FetchAdd0, RmwCheck::FetchOr1, RmwCheck::CasLoop];
+
+pub fn rmw_total() -> usize {
+    // 4 checks x 3 ordering pairs x waiter in {main, child} x {yield_now, spin_loop}, + 4 never-released loops, + 3 lock programs
+    RMW_CHECKS.len() * 3 * 2 * 2 + RMW_CHECKS.len() + 3
+}
+
+/// `true` = still locked / not yet set: spin again
+fn rmw_attempt(x: &loom::sync::atomic::AtomicUsize, check: RmwCheck, acq: std::sync::atomic::Ordering) -> bool {
+    use std::sync::atomic::Ordering::Relaxed;
+    // the location holds 1 while locked (waiting) and 0 once released
+    match check {
+        RmwCheck::Swap => x.swap(1, acq) == 1,
+        RmwCheck::FetchAdd0 => x.fetch_add(0, acq) == 1,
+        RmwCheck::FetchOr1 => x.fetch_or(1, acq) == 1,
+        RmwCheck::CasLoop => x.compare_exchange(0, 1, acq, Relaxed).is_err(),
+    }
+}
+
+pub fn rmw_work(idx: usize) -> Rec {
+    use loom::sync::atomic::AtomicUsize;
+    use std::sync::atomic::Ordering::{self, *};
+    use std::sync::Arc;
+    let mut rec = Rec::new(idx);
+    rec.extra = json!({"family": "rmwspin"});
+    let n_await = RMW_CHECKS.len() * 12;
+    let stats = Arc::new([std::sync::atomic::AtomicUsize::new(0), std::sync::atomic::AtomicUsize::new(0), std::sync::atomic::AtomicUsize::new(0), std::sync::atomic::AtomicUsize::new(0)]);
+    // [iterations, executions in which the waiter spun, executions without a spin, stale data reads]
+    let st = stats.clone();
+    let mut expect_complete = true;
+    let mut b = loom::model::Builder::new();
+    b.max_branches = 300;
+    let res: Result<(), Box<dyn std::any::Any + Send>>;
+    if idx < n_await {
+        let check = RMW_CHECKS[idx % 4];
+        let (acq, rel): (Ordering, Ordering) = [(Acquire, Release), (Relaxed, Relaxed), (SeqCst, SeqCst)][(idx / 4) % 3];
+        let child_waits = (idx / 12) % 2 == 1;
+        let hint = idx / 24 == 1;
+        rec.prog = format!("x = 1 ; {} : while {:?}(x, {:?}) says locked {{ {} }} ; r = data.load(rlx)  ||  {} : data.store(7, rlx) ; x.store(0, {:?})", if child_waits { "child" } else { "main" }, check, acq, if hint { "spin_loop()" } else { "yield_now()" }, if child_waits { "main" } else { "child" }, rel);
+        res = std::panic::catch_unwind(std::panic::AssertUnwindSafe(|| {
+            b.check(move || {
+                if st[0].fetch_add(1, SeqCst) >= 100_000 {
+                    panic!("{}", ITER_CAP_MSG);
+                }
+                let x = Arc::new(AtomicUsize::new(1));
+                let data = Arc::new(AtomicUsize::new(0));
+                let (x2, d2, st2) = (x.clone(), data.clone(), st.clone());
+                let waiter = move || {
+                    let mut spun = false;
+                    while rmw_attempt(&x2, check, acq) {
+                        spun = true;
+                        if hint {
+                            loom::hint::spin_loop();
+                        } else {
+                            loom::thread::yield_now();
+                        }
+                    }
+                    st2[if spun { 1 } else { 2 }].fetch_add(1, SeqCst);
+                    if d2.load(Relaxed) != 7 {
+                        st2[3].fetch_add(1, SeqCst);
+                    }
+                };
+                let releaser = move || {
+                    data.store(7, Relaxed);
+                    x.store(0, rel);
+                };
+                if child_waits {
+                    let h = loom::thread::spawn(waiter);
+                    releaser();
+                    h.join().unwrap();
+                } else {
+                    let h = loom::thread::spawn(releaser);
+                    waiter();
+                    h.join().unwrap();
+                }
+            })
+        }));
+    } else if idx < n_await + 4 {
+        let check = RMW_CHECKS[idx - n_await];
+        expect_complete = false;
+        rec.prog = format!("x = 1 ; main : while {:?}(x, Acquire) says locked {{ yield_now() }}  ||  child : y.store(1, rlx)   (nobody releases x)", check);
+        res = std::panic::catch_unwind(std::panic::AssertUnwindSafe(|| {
+            b.check(move || {
+                if st[0].fetch_add(1, SeqCst) >= 100_000 {
+                    panic!("{}", ITER_CAP_MSG);
+                }
+                let x = Arc::new(AtomicUsize::new(1));
+                let y = Arc::new(AtomicUsize::new(0));
+                let h = loom::thread::spawn(move || y.store(1, Relaxed));
+                while rmw_attempt(&x, check, Acquire) {
+                    loom::thread::yield_now();
+                }
+                h.join().unwrap();
+            })
+        }));
+    } else {
+        // a test-and-set lock used as a mutex around a cell by 2 threads: at most one thread spins at a time (the other is
+        // inside or past its critical section). With 3 threads two could spin at once, which C18 excludes.
+        let k = idx - n_await - 4;
+        let (check, nthreads) = [(RmwCheck::Swap, 2usize), (RmwCheck::CasLoop, 2), (RmwCheck::FetchOr1, 2)][k];
+        rec.prog = format!("x = 0 ; {} threads : while {:?}(x, Acquire) says locked {{ yield_now() }} ; cell += 1 ; x.store(0, Release)", nthreads, check);
+        res = std::panic::catch_unwind(std::panic::AssertUnwindSafe(|| {
+            b.check(move || {
+                if st[0].fetch_add(1, SeqCst) >= 100_000 {
+                    panic!("{}", ITER_CAP_MSG);
+                }
+                struct C(loom::cell::UnsafeCell<usize>);
+                unsafe impl Sync for C {}
+                unsafe impl Send for C {}
+                let x = Arc::new(AtomicUsize::new(0));
+                let cell = Arc::new(C(loom::cell::UnsafeCell::new(0)));
+                let body = {
+                    let (x, cell, st) = (x.clone(), cell.clone(), st.clone());
+                    move || {
+                        let mut spun = false;
+                        while rmw_attempt(&x, check, Acquire) {
+                            spun = true;
+                            loom::thread::yield_now();
+                        }
+                        st[if spun { 1 } else { 2 }].fetch_add(1, SeqCst);
+                        cell.0.with_mut(|p| unsafe { *p += 1 });
+                        x.store(0, Release);
+                    }
+                };
+                let hs: Vec<_> = (1..nthreads).map(|_| loom::thread::spawn(body.clone())).collect();
+                body();
+                for h in hs {
+                    h.join().unwrap();
+                }
+                if cell.0.with(|p| unsafe { *p }) != nthreads {
+                    st[3].fetch_add(1, SeqCst);
+                }
+            })
+        }));
+    }
+    rec.hash = fnv(&rec.prog);
+    rec.runs = 1;
+    let g = |i: usize| stats[i].load(SeqCst);
+    rec.iters = g(0) as u64;
+    rec.events = (g(1) + g(2)) as u64;
+    rec.nontrivial = true;
+    let panic = res.err().map(panic_msg);
+    match panic.as_ref().map(|m| classify(m)) {
+        Some(PanicKind::IterCap) => rec.status = "inconclusive:iteration-cap".into(),
+        Some(PanicKind::BranchLimit) => {
+            if expect_complete {
+                rec.v("spin_no_progress", "", format!("the location is released by another thread in every execution, yet the model hit the branch limit after {} iterations", g(0)));
+            }
+        }
+        Some(k) => rec.v("unexpected_panic", format!("{} @ {}", k.short(), last_panic_file()), panic.clone().unwrap_or_default()),
+        None => {
+            if !expect_complete {
+                rec.v("spin_cut_off", "", "nobody ever releases the location, yet loom::model returned normally".to_string());
+            } else {
+                if g(3) > 0 {
+                    let acquires = idx >= n_await || (idx / 4) % 3 != 1;
+                    if acquires {
+                        rec.v("spin_forbidden_exit", "", format!("{} executions left the loop through an Acquire check that read the Release store and then did not see what was written before it", g(3)));
+                    }
+                }
+                if g(1) == 0 || g(2) == 0 {
+                    rec.v("spin_missing_exit", "", format!("executions in which the waiter had to spin: {}, executions in which it did not: {} (both are possible)", g(1), g(2)));
+                }
+            }
+        }
+    }
+    if rec.extra.get("iterations").is_none() {
+        rec.extra = json!({"family": "rmwspin", "iterations": g(0), "executions_with_spin": g(1), "executions_without_spin": g(2)});
+    }
+    rec
+}
